@@ -67,6 +67,38 @@ type Parser struct {
 	tokenizer            *Tokenizer
 	shouldIndex          bool
 	reportInternalErrors bool
+	nesting              int
+}
+
+// maxNestingDepth bounds the recursion of the parser: selection sets, list and object values and list types
+// may nest this deep. The parser is recursive descent; without a bound a few megabytes of `[` or `{`
+// exhaust the goroutine stack, which terminates the process (a stack overflow cannot be recovered).
+const maxNestingDepth = 10000
+
+// enterNesting is called before the parser recurses into a nested construct, it reports an error
+// and returns false once maxNestingDepth is exceeded. Every successful call is paired with leaveNesting.
+func (p *Parser) enterNesting() bool {
+	if p.nesting >= maxNestingDepth {
+		next := p.tokenizer.Peek()
+		if !p.report.HasErrors() {
+			p.report.AddExternalError(operationreport.ExternalError{
+				Message: fmt.Sprintf("document is nested too deeply - the parser supports at most %d levels", maxNestingDepth),
+				Locations: []operationreport.Location{
+					{
+						Line:   next.TextPosition.LineStart,
+						Column: next.TextPosition.CharStart,
+					},
+				},
+			})
+		}
+		return false
+	}
+	p.nesting++
+	return true
+}
+
+func (p *Parser) leaveNesting() {
+	p.nesting--
 }
 
 // NewParser returns a new parser with all values properly initialized
@@ -120,6 +152,7 @@ func (p *Parser) precalculate() {
 }
 
 func (p *Parser) parse() {
+	p.nesting = 0
 	for {
 		key, literalReference := p.peekLiteral()
 
@@ -505,6 +538,11 @@ func (p *Parser) ParseValue() (value ast.Value) {
 }
 
 func (p *Parser) parseObjectValue() (ref int, pos position.Position) {
+	if !p.enterNesting() {
+		return ast.InvalidRef, position.Position{}
+	}
+	defer p.leaveNesting()
+
 	var objectValue ast.ObjectValue
 	objectValue.LBRACE = p.mustRead(keyword.LBRACE).TextPosition
 
@@ -545,6 +583,11 @@ func (p *Parser) parseObjectField() int {
 }
 
 func (p *Parser) parseValueList() int {
+	if !p.enterNesting() {
+		return ast.InvalidRef
+	}
+	defer p.leaveNesting()
+
 	var list ast.ListValue
 	list.LBRACK = p.mustRead(keyword.LBRACK).TextPosition
 
@@ -900,8 +943,12 @@ func (p *Parser) ParseType() (ref int) {
 		tok := p.read()
 		ref = p.document.AddNamedTypeWithPosition(tok.Literal, tok.TextPosition)
 	case keyword.LBRACK:
+		if !p.enterNesting() {
+			return
+		}
 		openList := p.read()
 		ofType := p.ParseType()
+		p.leaveNesting()
 		closeList := p.mustRead(keyword.RBRACK)
 		ref = p.document.AddListTypeWithPosition(ofType, openList.TextPosition, closeList.TextPosition)
 	default:
@@ -1318,6 +1365,10 @@ func (p *Parser) parseDirectiveLocations(locations *ast.DirectiveLocations) {
 }
 
 func (p *Parser) parseSelectionSet() (int, bool) {
+	if !p.enterNesting() {
+		return ast.InvalidRef, false
+	}
+	defer p.leaveNesting()
 
 	var set ast.SelectionSet
 
